@@ -1208,6 +1208,14 @@ class RoutingParameter:
     field: str
     path_template: str
 
+    @property
+    def disambiguated_field(self) -> str:
+        """The field path as an attribute path on the request object."""
+        return ".".join(
+            segment + "_" if segment in utils.RESERVED_NAMES else segment
+            for segment in self.field.split(".")
+        )
+
     def _split_into_segments(self, path_template):
         segments = path_template.split("/")
         named_segment_ids = [i for i, x in enumerate(segments) if "{" in x or "}" in x]
